@@ -29,6 +29,8 @@ fixed(["C12"], "later-valid-request-unanswered:*:number-huge-finite-to-sexagesim
       "a client could store 1e308 in a sexagesimal-format number; num_to_str then raised OverflowError on every definition/update of that vector")
 fixed(["C20"], "unequal-compare-equal:child-kind-changed*", "fix: message equality takes the kind of each child",
       "two messages whose children differ only in kind (same name, attributes and value text) compared equal: to_dict() of a child does not hold its kind")
+fixed(["C12"], "later-valid-request-unanswered:*:number-400-digit-integer-*", "fix: number elements reject integers beyond the float range",
+      "a number sent as hundreds of digits without exponent was stored as an arbitrary-size int; every later rendering of the vector raised OverflowError (pointed out by a seeding sub-agent's report on the unmodified code, reproduced by C12 after the catalogue got 400-digit numbers)")
 known("C08", "payload-longer-than-threshold-on-threshold-enabled-link",
       "a BLOB message longer than the 2048-character junk threshold is discarded as junk by a framing buffer whose threshold is enabled "
       "(every client->driver upload on the server side; driver->client on a connection that asked for enableBLOB Also without for_blobs) "
